@@ -13,7 +13,7 @@ KEYWORDS = {'include', 'namespace', 'imports', 'as', 'features', 'cardinality', 
             'len', 'floor', 'ceil', 'String', 'Integer', 'Real', 'Boolean', 'Arithmetic', 'Type', 'or', 'alternative',
             'optional', 'mandatory', 'true', 'false'}
 BINARY_CHOICES = ('quote_all', 'parens_all', 'group_per_child', 'comments', 'blank_before_constraints',
-                  'namespace', 'imports', 'include')
+                  'namespace', 'imports', 'include', 'explicit_boolean')
 INDENTS = ('\t', '    ', '  ')
 DEFAULT = dict({k: False for k in BINARY_CHOICES}, indent='\t')
 SYM = {'AND': '&', 'OR': '|', 'IMPLIES': '=>', 'EQUIVALENCE': '<=>', 'EQUALS': '==', 'LOWER': '<', 'GREATER': '>',
@@ -23,11 +23,16 @@ AGG = {'SUM': 'sum', 'AVG': 'avg', 'LEN': 'len', 'FLOOR': 'floor', 'CEIL': 'ceil
 
 
 def all_choices():
-    for bits in itertools.product((False, True), repeat=len(BINARY_CHOICES)):
+    """Full product of the first eight choices; the spelled-out default type (`Boolean F`) is combined
+    with the covering set only (it does not interact with the surface of the rest of the document)."""
+    for bits in itertools.product((False, True), repeat=len(BINARY_CHOICES) - 1):
         for ind in INDENTS:
-            ch = dict(zip(BINARY_CHOICES, bits))
+            ch = dict(zip(BINARY_CHOICES, bits + (False,)))
             ch['indent'] = ind
             yield ch
+    for c in covering_choices():
+        if c['explicit_boolean'] or all(c[k] for k in BINARY_CHOICES[:-1]):
+            yield dict(c, explicit_boolean=True)
 
 
 def covering_choices():
@@ -137,7 +142,7 @@ def emit(model, ch):
     def feat(f, depth):
         name, rels, abstract, ftype, fcard, attrs = f
         s = ind * depth
-        if ftype != 'Boolean':
+        if ftype != 'Boolean' or ch.get('explicit_boolean'):
             s += ftype + ' '
         s += ident(name, ch)
         if tuple(fcard) != (1, 1):
@@ -185,4 +190,4 @@ def selftest():
     assert doc == want, doc
     doc2 = emit(m, dict(DEFAULT, parens_all=True, quote_all=True, group_per_child=True))
     assert '("Bb") & (("Dc") | ("X1"))' in doc2 and doc2.count('mandatory') == 2, doc2
-    assert len(list(all_choices())) == 768
+    assert len(list(all_choices())) == 768 + 2
